@@ -1,5 +1,5 @@
 use crate::{
-    check_spec_reserved_keys, Enr, EnrKey, EnrPublicKey, Error, Key, NodeId, MAX_ENR_SIZE,
+    check_signer_is_record_key, check_spec_reserved_keys, Enr, EnrKey, EnrPublicKey, Error, Key, NodeId, MAX_ENR_SIZE,
 };
 use crate::{
     ENR_VERSION, ID_ENR_KEY, IP6_ENR_KEY, IP_ENR_KEY, TCP6_ENR_KEY, TCP_ENR_KEY, UDP6_ENR_KEY,
@@ -189,6 +189,7 @@ impl<K: EnrKey> Builder<K> {
         self.add_value_rlp(ID_ENR_KEY, id_bytes.freeze());
 
         self.add_public_key(&key.public());
+        check_signer_is_record_key(&self.content, key)?;
         let rlp_content = self.rlp_content();
 
         let signature = self.signature(key)?;
